@@ -26,7 +26,12 @@ PROP = dict(
         # scripted status sequence per host, max-retry 0-2; requests observed as they arrive at the origin, bucket state
         # (failure count, rate) read after the first item
         dict(driver="archrl", binary="zratearch", noshrink=True, quick=14, thorough=150, shard=50,
-             monitors=["penalty_honoured_at_origin_across_items"]),
+             monitors=["penalty_honoured_at_origin_across_items", "every_failure_answer_reported_5xx_lowers_rate"]),
+        # hosts in continuous use while the stale-bucket sweep ticks (cleanup period 250-400 ms real time, table far from full):
+        # a bucket accessed within the last period is never swept, window/penalty bounds hold across the ticks
+        dict(driver="mgrsweep", binary="zrate", noshrink=True, quick=10, thorough=150, shard=40,
+             monitors=["sweep_spares_active_hosts", "window_bound_across_sweeps_for_busy_hosts",
+                       "penalty_honoured_across_sweeps_for_busy_hosts"]),
     ],
     partial="IEEE-754: the model computes over Q where the code uses binary64 (tokens/rate compared within 1e-9, a grant decision "
             "within 1e-6 of the threshold is not compared); per-host bounds hold for a bucket's lifetime only - LFU eviction and the "
